@@ -92,8 +92,8 @@ OUTSIDE = [
  'roll / sliding_window / expand over more than two axes; sliding_window / expand with a repeated axis; take with multi-dimensional index arrays; concatenate/stack of more than two operands (nmtools is binary)',
  'split with run-time sections/indices at the view level (returns a std::vector of views): covered at the slice-argument level (split_args) and, for a compile-time section count 1..3, at the view level',
  'where with broadcasting operands (C06); compile-time (constant) arguments and fixed-shape arrays (C09); invalid arguments (C15); evaluation into arrays (the views are read element-wise)',
- 'regions of the PENDING_FINDINGS (negative axis in repeat/take/concatenate/stack/compress, negative take indices, |shift| beyond one wrap in roll, repeated roll axis, negative diagonal offset, diagonal offset beyond the matrix, empty / >2^24 arange): '
- 'excluded by KF_C04_* macros, each with a natively replayed witness',
+ 'the region of the one OPEN finding (negative axis in concatenate / stack): excluded by its KF_C04_* macro while its natively replayed witness still fails; the ten other defects found here '
+ '(negative axis in repeat/take/compress, negative take indices, |shift| beyond one wrap in roll, repeated roll axis, negative diagonal offset, diagonal offset beyond the matrix, empty / >2^24 arange) are repaired in /repo and their regions are part of the proved domain',
 ]
 ASSUMPTIONS = [
  'element type unsigned (symbolic 32-bit cells); position identity follows from equality for all data',
